@@ -3,6 +3,7 @@ real front-end (harness/frontends.py) and through the model (`server` driver op)
 from pymodbus.factory import ClientDecoder
 
 from harness import execlib, framelib, frontends, pdus
+from harness.pyutil import debug_logging
 from harness.c07 import crc16_ref
 
 FRAMERS_FOR = {'syncTcp': ['tcp', 'rtu', 'ascii', 'binary', 'tls'], 'syncSerial': ['rtu', 'ascii', 'binary', 'tcp'],
@@ -162,12 +163,24 @@ def run_both(ctx, cfgs):
     return [(run_real(c), a) for c, a in zip(cfgs, ask_model(ctx, cfgs))]
 
 
+def _debug_for(c):
+    """one configuration in five is served with DEBUG logging switched on (decided by the traffic itself: replays do the same)"""
+    items = [ch for _, ch in c['schedule']] if c.get('schedule') is not None else c['chunks']
+    return sum(len(ch) for ch in items if ch) % 5 == 0
+
+
 def run_real(c):
+    with debug_logging(_debug_for(c)):
+        return _run_real(c)
+
+
+def _run_real(c):
     if c.get('schedule') is not None:
         return frontends.run_schedule(c['frontend'], c['framer'], c['single'], c['units'], c['ignore_missing'], c['broadcast'],
-                                      1 + max([i for i, _ in c['schedule']] + [0]), c['schedule'], c.get('identity'))
+                                      1 + max([i for i, _ in c['schedule']] + [0]), c['schedule'], c.get('identity'),
+                                      via_defaults=bool(c.get('via_defaults')))
     return frontends.run_frontend(c['frontend'], c['framer'], c['single'], c['units'], c['ignore_missing'], c['broadcast'], c['chunks'],
-                                  c.get('identity'))
+                                  c.get('identity'), via_defaults=bool(c.get('via_defaults')))
 
 
 def canon_outs(frontend, outs):
@@ -191,8 +204,14 @@ def compare(rep, case, real, a, where):
 
 def run_real_steps(c):
     """like run_real, with the per-unit dumps before the first and after every step: (real, before, per_step)"""
+    with debug_logging(_debug_for(c)):
+        return _run_real_steps(c)
+
+
+def _run_real_steps(c):
     sched = c.get('schedule') if c.get('schedule') is not None else [[0, ch] for ch in c['chunks']]
-    s = frontends.Session(c['frontend'], c['framer'], c['single'], c['units'], c['ignore_missing'], c['broadcast'], c.get('identity'))
+    s = frontends.Session(c['frontend'], c['framer'], c['single'], c['units'], c['ignore_missing'], c['broadcast'], c.get('identity'),
+                          via_defaults=bool(c.get('via_defaults')))
     try:
         ids = [s.open() for _ in range(1 + max([i for i, _ in sched] + [0]))]
         before = s.dumps()
